@@ -49,6 +49,8 @@ ReadVerdict(e) ==
 ThVerdict(e) ==
   IF e.data # TableHeaderBytes(e.tid, e.ssi, e.priv, e.slen) THEN "table-header-encode"
   ELSE IF e.back_tid # e.tid \/ e.back_ssi # e.ssi \/ e.back_priv # e.priv \/ e.back_slen # (e.slen % 1024) THEN "table-header-round-trip"
+  ELSE IF ~e.zero_hdr THEN "new-table-header-not-zero"
+  ELSE IF e.pf # <<e.pf_n>> \o [i \in 1..e.pf_n |-> 255] THEN "new-pointer-field"
   ELSE ""
 Verdict(e) == IF e.panic # "" THEN "panic"
               ELSE IF ~e.earlier_same THEN "table-returned-earlier-reads-differently-after-a-later-call"
